@@ -218,7 +218,7 @@ def specs(tier):
     yield "make_clean_mask", g_make_clean_mask
 
     def g_localmaxlabel():
-        for shp in ((3, 3), (3, 4), (4, 3), (4, 4), (3, 17), (17, 3), (5, 5)):
+        for shp in ((3, 3), (3, 4), (4, 3), (4, 4), (3, 17), (17, 3), (5, 5), (2, 2), (2, 3), (3, 2), (2, 5), (5, 2), (4, 2), (2, 17), (17, 2)):
             n = shp[0] * shp[1]
             perms = itertools.islice(itertools.permutations(range(n)), 0, None, max(1, int(np.prod(range(1, min(n, 9) + 1)) // 300))) if n <= 9 else \
                 [tuple((np.arange(n) * s + o) % n) for s in (1, 5, 7, 11, 13) for o in (0, 3) if np.gcd(s, n) == 1]
@@ -255,6 +255,15 @@ def specs(tier):
             vv = (np.argsort(np.argsort((np.arange(nnz) * 37) % 101)) + 1).astype(np.float32)
             yield Call("sparse_localmaxlabel", [A(vv), A(i), A(j), I(nnz), A(np.zeros(nnz, np.float32), "out"), A(np.zeros(nnz, np.int32), "out"),
                                                 A(np.zeros(nnz, np.int32), "out")])
+        # more isolated pixels than the labelling's bookkeeping table initially holds (16384): the table has to grow inside the call
+        for side, step_ in ((262, 2), (400, 2)):
+            I_, J_ = np.mgrid[0:side:step_, 0:side:step_]
+            i = I_.ravel().astype(np.uint16); j = J_.ravel().astype(np.uint16)
+            nnz = len(i)
+            v = np.full(nnz, 5.0, np.float32)
+            yield Call("sparse_connectedpixels", [A(v), A(i), A(j), I(nnz), F(2.5), A(np.zeros(nnz, np.int32), "out")])
+            yield Call("sparse_connectedpixels_splat", [A(v), A(i), A(j), I(nnz), F(2.5), A(np.zeros(nnz, np.int32), "io"),
+                                                        A(np.zeros((side + 2) * (side + 2), np.int32), "out", lambda r, a: slice(0, 0)), I(side), I(side)])
     yield "sparse_kernels", g_sparse
 
     def g_overlaps():
